@@ -175,7 +175,7 @@ package fosite
 //@ spec func refresh_unchanged() bool = ref_exists == old(ref_exists) && ref_active == old(ref_active) && ref_rid == old(ref_rid) && ref_client == old(ref_client) && ref_acc == old(ref_acc) && ref_req == old(ref_req)
 //@ spec func formget(v url.Values, key string) string = (key in v && len(v[key]) > 0) ? v[key][0] : ""
 //@ spec func ekind(e error) string = ehead(e).ErrorField
-//@ spec func insl(s []string, x string) bool = exists j int :: 0 <= j && j < len(s) && s[j] == x
+//@ spec func opaque insl(s []string, x string) bool = exists j int :: 0 <= j && j < len(s) && s[j] == x
 
 // Getters of requests, sessions, clients and configuration are abstract fields: pure functions of the
 // receiver in the current state (assumption: they have no side effects and do not depend on the context).
@@ -186,7 +186,7 @@ package fosite
 //@ interface Requester.SetID
 //@   sets recv.GetID() = id
 // Setting requested scopes / audience replaces them as a set (the reference implementation drops duplicates).
-//@ spec func opaque sameset(a []string, b []string) bool = forall x string :: insl(a, x) <==> insl(b, x)
+//@ spec func opaque sameset(a []string, b []string) bool = (forall i int :: 0 <= i && i < len(a) ==> insl(b, a[i])) && (forall i int :: 0 <= i && i < len(b) ==> insl(a, b[i]))
 //@ interface Requester.SetRequestedScopes
 //@   modifies recv.GetRequestedScopes()
 //@   ensures sameset(recv.GetRequestedScopes(), scopes)
@@ -340,13 +340,14 @@ package fosite
 //@ func (*Request).SetRequestedScopes
 //@   modifies a.RequestedScope
 //@   ensures [C12.request-scope-sets] sameset(a.RequestedScope, s)
-//@   invariant loop#1 [C12.request-scope-sets] $i <= len(s) && (forall x string :: insl(a.RequestedScope, x) <==> (exists j int :: 0 <= j && j < $i && s[j] == x))
+//@   invariant loop#1 [C12.request-scope-sets] $i <= len(s) && (forall k int :: 0 <= k && k < len(a.RequestedScope) ==> (exists j int :: 0 <= j && j < $i && s[j] == a.RequestedScope[k])) && (forall j int :: 0 <= j && j < $i ==> insl(a.RequestedScope, s[j]))
 //@ func (*Request).SetRequestedAudience
 //@   modifies a.RequestedAudience
 //@   ensures [C12.request-scope-sets] sameset(a.RequestedAudience, s)
-//@   invariant loop#1 [C12.request-scope-sets] $i <= len(s) && (forall x string :: insl(a.RequestedAudience, x) <==> (exists j int :: 0 <= j && j < $i && s[j] == x))
+//@   invariant loop#1 [C12.request-scope-sets] $i <= len(s) && (forall k int :: 0 <= k && k < len(a.RequestedAudience) ==> (exists j int :: 0 <= j && j < $i && s[j] == a.RequestedAudience[k])) && (forall j int :: 0 <= j && j < $i ==> insl(a.RequestedAudience, s[j]))
 
 //@ func RemoveEmpty
+//@   pure
 //@   ensures [C12.remove-empty] forall j int :: 0 <= j && j < len(ret) ==> ret[j] != ""
 //@   invariant loop#1 [C12.remove-empty] forall j int :: 0 <= j && j < len(ret) ==> ret[j] != ""
 
@@ -901,3 +902,35 @@ package fosite
 //@   modifies rw_status, rw_body, rw_writes, mapof(rw.Header())
 //@   ensures [C20.no-store-headers] hget(rw.Header(), "Cache-Control") == "no-store" && hget(rw.Header(), "Pragma") == "no-cache"
 //@   invariant loop#1 [C20.no-store-headers] wh == rw.Header() && rh == responder.GetHeader() && rh != wh
+
+// ---------------------------------------------------------------- C13: authorization request validation
+//@ func (Arguments).Matches
+//@   ensures [C13.matches-is-set-equality] result ==> len(r) == len(items) && (forall j int :: 0 <= j && j < len(items) ==> StringInSlice(items[j], r))
+//@   invariant loop#1 [C13.matches-is-set-equality] len(r) == len(items) && $i <= len(items) && (forall j int :: 0 <= j && j < $i ==> StringInSlice(items[j], r))
+
+//@ func (*Fosite).validateResponseTypes
+//@   let rts = RemoveEmpty(strings.Split(old(formget(r.Form, "response_type")), " "))
+//@   requires f != nil && r != nil && request != nil && request.Client != nil
+//@   modifies request.ResponseTypes
+//@   ensures [C13.response-type-registered] err == nil ==> len(request.ResponseTypes) > 0 && (exists j int :: 0 <= j && j < len(request.Client.GetResponseTypes()) && len(request.ResponseTypes) == len(RemoveEmpty(strings.Split(request.Client.GetResponseTypes()[j], " "))) && (forall k int :: 0 <= k && k < len(RemoveEmpty(strings.Split(request.Client.GetResponseTypes()[j], " "))) ==> StringInSlice(RemoveEmpty(strings.Split(request.Client.GetResponseTypes()[j], " "))[k], request.ResponseTypes)))
+//@   ensures [C13.response-type-registered] err != nil ==> ekind(err) == "unsupported_response_type" && request.ResponseTypes == old(request.ResponseTypes)
+//@   invariant loop#1 [C13.response-type-registered] !found && request.ResponseTypes == old(request.ResponseTypes) && len(responseTypes) > 0
+
+//@ func (*Fosite).ParseResponseMode
+//@   requires f != nil && r != nil && request != nil
+//@   modifies request.ResponseMode
+//@   ensures [C13.response-mode-allowed] err == nil ==> request.ResponseMode == old(formget(r.Form, "response_mode")) && (request.ResponseMode == ResponseModeDefault || request.ResponseMode == ResponseModeFragment || request.ResponseMode == ResponseModeQuery || request.ResponseMode == ResponseModeFormPost || f.ResponseModeHandler(ctx).ResponseModes().Has(request.ResponseMode))
+//@   ensures [C13.response-mode-allowed] err != nil ==> ekind(err) == "unsupported_response_mode"
+
+//@ func (*Fosite).validateResponseMode
+//@   requires f != nil && r != nil && request != nil
+//@   ensures [C13.response-mode-allowed] err == nil ==> request.ResponseMode == ResponseModeDefault || (implements(request.Client, ResponseModeClient) && (exists j int :: 0 <= j && j < len(cast(request.Client, ResponseModeClient).GetResponseModes()) && cast(request.Client, ResponseModeClient).GetResponseModes()[j] == request.ResponseMode))
+//@   ensures [C13.response-mode-allowed] err != nil ==> ekind(err) == "unsupported_response_mode"
+//@   invariant loop#1 [C13.response-mode-allowed] !found && $i <= len(responseModeClient.GetResponseModes())
+
+//@ func (*Fosite).validateAuthorizeRedirectURI
+//@   requires f != nil && request != nil && request.Client != nil
+//@   modifies request.RedirectURI
+//@   ensures [C13.openid-needs-redirect] err == nil && request.RequestedScope.Has("openid") ==> formget(request.Form, "redirect_uri") != ""
+//@   ensures [C11.redirect-target-is-validated] err == nil ==> request.RedirectURI != nil && valid_redirect(request.RedirectURI) && (exists u string :: redirect_ok(formget(request.Form, "redirect_uri"), request.Client.GetRedirectURIs(), u) && url_ok(u) && request.RedirectURI.Scheme == url_scheme(u) && request.RedirectURI.Host == url_host(u) && request.RedirectURI.Path == url_path(u) && request.RedirectURI.RawQuery == url_rawquery(u))
+//@   ensures [C11.redirect-target-is-validated] err != nil ==> request.RedirectURI == old(request.RedirectURI)
